@@ -653,6 +653,10 @@ class Target(DataExchangeProtocol):
                 except nfc.clf.TransmissionError:
                     frame = None
                 else:
+                    if frame is None and deadline and timeout == 0:
+                        # the response was sent without waiting because
+                        # the deadline expired, that is not a release
+                        raise nfc.clf.TimeoutError("deadline expired")
                     break
 
         if frame:
